@@ -37,10 +37,22 @@ def static_dir():
 def build_app():
     import falcon
 
+    class Rejected(Exception):
+        pass
+
+    def on_rejected(req, resp, ex, params):
+        # handlers receive the params of the request at hand and may use them as scratch space
+        params['client'] = req.get_header('X-Tag')
+        params.setdefault('first_path', req.path)
+        resp.status = 403
+        resp.media = {'rejected': dict(params), 'tag': getattr(req.context, 'tag', None)}
+
     class Ctx:
         def process_request(self, req, resp):
             req.context.tag = req.get_header('X-Tag')
             req.params['mw'] = req.get_header('X-Tag')
+            if req.get_header('X-Reject'):
+                raise Rejected()
 
         def process_resource(self, req, resp, resource, params):
             params['tenant'] = req.get_header('X-Tag')
@@ -87,9 +99,11 @@ def build_app():
     class Tail:
         def on_get(self, req, resp, p, tenant=None):
             resp.media = {'route': 'p', 'p': p, 'tag': req.context.tag}
+            resp.content_type = 'application/json; charset=utf-8'      # a parameterised type on the response side
             resp.downloadable_as = 'r-%s.json' % req.context.tag
 
     app = falcon.App(middleware=[Ctx()])
+    app.add_error_handler(Rejected, on_rejected)
     app.req_options.auto_parse_form_urlencoded = True
     app.add_route('/a/{x:int}', Item())
     app.add_route('/b/{y:int}', Other())
@@ -150,6 +164,12 @@ def request_pool():
         ('GET /static/one', Req('GET', b'/static/one.txt', b'', [('X-Tag', 't26')])),
         ('GET /static/two', Req('GET', b'/static/two.txt', b'', [('X-Tag', 't27'), ('Range', 'bytes=2-5')])),
         ('GET /nowhere (404)', Req('GET', b'/nowhere', b'', [('X-Tag', 't28')])),
+        ('GET refused A', Req('GET', b'/a/3', b'q=r', [('X-Tag', 't29'), ('X-Reject', '1')])),
+        ('GET refused B', Req('GET', b'/b/7', b'', [('X-Tag', 't30'), ('X-Reject', '1')])),
+        ('POST json charset', Req('POST', b'/a/5', b'', [('X-Tag', 't31'), ('Content-Type', 'application/json; charset=utf-8')],
+                                  b'{"c": 1}')),
+        ('GET /b/13 mixed accept', Req('GET', b'/b/13', b'', [('X-Tag', 't32'), ('Accept',
+                                       'application/json;q=0.1, application/json;charset=utf-8, text/xml;q=0.5')])),
     ]
 
 
@@ -157,7 +177,8 @@ def request_pool():
 PAIRS = [(3, 4), (4, 3), (5, 6), (6, 5), (5, 7), (7, 5), (2, 10), (10, 19), (19, 10), (0, 1), (1, 0), (2, 3), (3, 2),
          (11, 12), (12, 11), (13, 14), (14, 13), (8, 9), (9, 8), (15, 13), (16, 0), (17, 18), (18, 17), (0, 5),
          (10, 2), (2, 19), (20, 21), (21, 20), (20, 22), (22, 21), (23, 20), (21, 23), (24, 25), (25, 24), (24, 26),
-         (26, 24), (26, 27), (27, 26), (28, 24), (24, 28), (26, 28), (25, 27)]
+         (26, 24), (26, 27), (27, 26), (28, 24), (24, 28), (26, 28), (25, 27),
+         (29, 30), (30, 29), (29, 0), (13, 10), (14, 19), (17, 31), (32, 31), (31, 32), (15, 19), (32, 16), (16, 32), (13, 16)]
 PRESSURE_PAIRS = [(10, 19), (10, 2), (2, 19), (19, 10)]
 
 
@@ -283,15 +304,31 @@ def leg(ctx):
         off = (ctx.seed + n) % thin
         mods = modules[(i, j, pname)]
         jobs += [(i, j, pname, k, None) for k in range(1, lines[(i, j, pname)][0] + 1)
-                 if mods[k - 1] != 'routing/compiled.py' or k % thin == off]
+                 if mods[k - 1][0] != 'routing/compiled.py' or k % thin == off]
     # pass 3: two preemptions, sampled
     for _ in range(ctx.pick(400, 20000)):
         i, j, pname, _, _ = ctx.rng.choice(base)
         n0, n1 = lines[(i, j, pname)]
         jobs.append((i, j, pname, ctx.rng.randint(1, n0), ctx.rng.randint(1, n1)))
+    # pass 4: two preemptions around the lazy router compilation of first-ever requests: thread 0 is stopped at a
+    # shallow point of routing/compiled.py (in find / the function that takes the lock / a helper that just
+    # returned), thread 1 runs into its own compilation and is stopped there, thread 0 goes on
+    shallow = 0
+    for (i, j) in [(0, 1), (5, 6), (8, 9), (24, 25)][:ctx.pick(2, 4)]:
+        m0 = modules[(i, j, 'first-requests')]
+        m1 = modules[(j, i, 'first-requests')] if (j, i, 'first-requests') in modules else m0
+        rd = [d for (f, fn, d, kd) in m0 if f == 'routing/compiled.py']
+        if not rd:
+            continue
+        top = min(rd)
+        k1s = [k + 1 for k, (f, fn, d, kd) in enumerate(m0) if f == 'routing/compiled.py' and d <= top + 2]
+        k2s = [k + 1 for k, (f, fn, d, kd) in enumerate(m1) if f == 'routing/compiled.py'][::ctx.pick(12, 3)]
+        shallow += len(k1s)
+        jobs4 = [(i, j, 'first-requests', a, b) for a in k1s for b in k2s]
+        jobs += jobs4
     for job, out in zip(jobs, fan_out(jobs)):
         judge(job, out)
-    ctx.extra['wide'] = {'schedules': stats['schedules'], 'lock_reordered': stats['infeasible'],
+    ctx.extra['wide'] = {'router_shallow_points': shallow, 'schedules': stats['schedules'], 'lock_reordered': stats['infeasible'],
                          'lines_per_request': stats['lines'], 'capacity_levels': levels}
     ctx.traces_validated += stats['schedules']
     ctx.progress('wide leg done: %d schedules (every falcon source line as a preemption point)' % stats['schedules'])
